@@ -33,7 +33,7 @@ CONSTANTS LitSyms,     \* raw literal symbols patterns are built from  (subset o
           AbsFlags,    \* subset of BOOLEAN
           MaxSegs,     \* longest pattern
           MaxRoutes,   \* largest route table
-          Findings,    \* known deviations of the mechanism that the invariants excuse (subset of {"F8a".."F8e"})
+          Findings,    \* known deviations of the mechanism that the invariants excuse (subset of {"F8a".."F8f"})
           DeepOverlap  \* TRUE: also check the syntactic overlap criterion against its definition (\E u)
 
 VARIABLES routes,      \* PlaneBuilder.model.routes : the patterns added so far, in order
@@ -175,12 +175,14 @@ F8a(p, q) == N(p) = N(q) /\ \E i \in 1..N(p) :
                 /\ Lit(p.segs[i]) /\ Lit(q.segs[i])
                 /\ p.segs[i].s # q.segs[i].s /\ SymDec[p.segs[i].s] = SymDec[q.segs[i].s]
 F8b(p) == \E n \in Names(p) : NameDec[n] # n
-F8c(p) == ~SchemeLegal(p.sc) \/ \E i \in 1..N(p) : Lit(p.segs[i]) /\ ~UriLegalSym(p.segs[i].s)
+F8c(p) == \E i \in 1..N(p) : Lit(p.segs[i]) /\ ~UriLegalSym(p.segs[i].s)
 F8d(p) == N(p) = 0
-Shapes(p) == {f \in {"F8b", "F8c", "F8d"} :
+F8f(p) == ~SchemeLegal(p.sc)
+Shapes(p) == {f \in {"F8b", "F8c", "F8d", "F8f"} :
                 \/ (f = "F8b" /\ F8b(p))
                 \/ (f = "F8c" /\ F8c(p))
-                \/ (f = "F8d" /\ F8d(p))}
+                \/ (f = "F8d" /\ F8d(p))
+                \/ (f = "F8f" /\ F8f(p))}
 Excused(p) == Shapes(p) \cap Findings # {}
 F8e(m) == \E n \in DOMAIN m : m[n] = "t"
 
